@@ -41,8 +41,19 @@ class _FileBufferedContext(_CounterFuncContext):
     def __enter__(self):
         super().__enter__()
         if self._buffer_capacity is not None:
-            self._original_buffer_capacitys.append(self._cls.get_buffer_capacity())
-            self._cls.set_buffer_capacity(self._buffer_capacity)
+            new_capacity, self._buffer_capacity = self._buffer_capacity, None
+            original_capacity = self._cls.get_buffer_capacity()
+            self._original_buffer_capacitys.append(original_capacity)
+            try:
+                self._cls.set_buffer_capacity(new_capacity)
+            except BaseException:
+                # Lowering the capacity can force a flush, and that flush can
+                # fail. The with-block is then never entered and __exit__ is
+                # never called, so entering must be undone here.
+                self._original_buffer_capacitys.pop()
+                self._cls._BUFFER_CAPACITY = original_capacity
+                self._count -= 1
+                raise
         else:
             self._original_buffer_capacitys.append(None)
         self._buffer_capacity = None
